@@ -205,11 +205,19 @@ def documented_idiom(rng):
 
 
 # ------------------------------------------------------------------ binary corruptions
-def oracle_broken(model):
+def oracle_broken(model, wire=None):
     """Independent re-check of the six documented sanity rules.  -> list of broken rules"""
     broken = []
     if model.version is None or model.version != bny.VERSION:
         broken.append('version')
+    if wire is not None and 'version' not in broken:
+        # the Version as it stands on the wire (read with the independent codec, not through the library's model class)
+        try:
+            vers = [rc.read_nni(wire, k[2], k[3]) for k in rc.children(wire, 0, len(wire)) if k[0] == 0x61]
+            if len(vers) != 1 or vers[0] != bny.VERSION:
+                broken.append('version')
+        except (rc.Reject, KeyError):
+            pass
     nodes = model.nodes
     n = len(nodes)
     for i, nd in enumerate(nodes):
@@ -357,7 +365,7 @@ def check_binary(ctx, rng, clean):
             except Exception:   # noqa
                 ctx.event('corruption-not-encodable')
                 continue
-            broken = oracle_broken(m2)
+            broken = oracle_broken(m2, wire)
             field = label.split('=')[0].split('.')[-1] if '=' in label else label.split('.')[-1]
             w = {'schema': text, 'corruption': label, 'broken_rules': sorted(set(broken)), 'model': wire if len(wire) < 700 else wire[:350]}
             ctx.case((text, label), nontrivial=True, sample=w if ctx.evaluations % 900 == 11 else None)
